@@ -148,6 +148,14 @@ class Sys:
         ex = {i.name: np.full(tuple(i.shape), 0.5) for i in self.inputs()}
         key = (tuple(sorted(form.items())), tuple(ic_on), tuple(obs_on), tuple(bc_on))
         self._protos[key] = self._construct(ex, form, ic_on, obs_on, bc_on, None)
+        # a second, unrelated system loss is built afterwards in the same process (other weights): a loss object owns its
+        # configuration, whatever is constructed later
+        try:
+            decoy = {i.name: np.full(tuple(i.shape), 0.125) for i in self.inputs()}
+            self._decoy = self._construct(decoy, {"dyn_loss": "dict", "initial_condition": "dict", "observations": "dict", "boundary_loss": "dict"}
+                                          if len(self.uk) > 1 else {}, ic_on, obs_on, bc_on, None)
+        except Exception:
+            self._decoy = None
         return self
 
     def _construct(self, a, form, ic_on, obs_on, bc_on, derivative_keys_dict):
